@@ -203,14 +203,25 @@ Definition scratch (r : slice) (data : list byte) : slice :=
 Definition long_term_key (user realm pass : list byte) : list byte :=
   md5 (user ++ [58] ++ realm ++ [58] ++ pass).
 
-(* [hst] is the state of the pooled HMAC object the call happens to draw *)
-Definition mi_add (hst : hstate) (m : msg) (key : list byte) : outcome msg :=
+(* m.grow(20+Length); m.Raw = m.Raw[:20+Length] — both AddTo methods cut Raw at the declared length
+   before hashing, as Add does (fix: commit 8cc48ee; on the pinned tree they hashed all of Raw, including
+   bytes after the declared length that Decode tolerates) *)
+Definition cut_at_length (m : msg) : outcome msg :=
+  let last := messageHeaderSize + m_length m in
+  let m1 := grow m last in
+  r <- reslice (m_raw m1) 0 last ;; Ok (set_raw m1 r).
+
+(* [hst] is the state of the pooled HMAC object the call happens to draw; [cut] = the tree has the fix *)
+Definition mi_add_gen (cut : bool) (hst : hstate) (m : msg) (key : list byte) : outcome msg :=
   if existsb (fun a => a_type a =? AttrFingerprint) (m_attrs m) then Err E_FP_BEFORE_MI else
-  let length := m_length m in
-  m1 <- write_length (set_length m (u32 (m_length m + 24))) ;;
+  m0 <- (if cut then cut_at_length m else Ok m) ;;
+  let length := m_length m0 in
+  m1 <- write_length (set_length m0 (u32 (m_length m0 + 24))) ;;
   v <- new_hmac_sha1 hst key (bytes (m_raw m1)) ;;
   let m2 := set_length (set_raw m1 (scratch (m_raw m1) v)) length in
   add m2 AttrMessageIntegrity (copy_zero 20 v).
+Definition mi_add : hstate -> msg -> list byte -> outcome msg := mi_add_gen true.
+Definition mi_add_old : hstate -> msg -> list byte -> outcome msg := mi_add_gen false.
 
 Fixpoint size_reduced (l : list attr) (after : bool) (acc : N) : N :=
   match l with
@@ -249,11 +260,14 @@ Definition mi_check (hst : hstate) (m : msg) (key : list byte) : msg * outcome u
   end.
 
 (* ------------------------------------------------------------------ FINGERPRINT *)
-Definition fp_add (m : msg) : outcome msg :=
-  let l := m_length m in
-  m1 <- write_length (set_length m (u32 (m_length m + 8))) ;;
+Definition fp_add_gen (cut : bool) (m : msg) : outcome msg :=
+  m0 <- (if cut then cut_at_length m else Ok m) ;;
+  let l := m_length m0 in
+  m1 <- write_length (set_length m0 (u32 (m_length m0 + 8))) ;;
   let val := fingerprint_value (bytes (m_raw m1)) in
   add (set_length m1 l) AttrFingerprint (be32 val).
+Definition fp_add : msg -> outcome msg := fp_add_gen true.
+Definition fp_add_old : msg -> outcome msg := fp_add_gen false.
 
 Definition fp_check (m : msg) : outcome unit :=
   match get m AttrFingerprint with
